@@ -210,3 +210,55 @@ def reference_scripts():
                 d[k] = line
                 out.append(REF_SKELETON % d)
     return out
+
+
+# ---------------------------------------------------------------------------------------------
+# address family: every path shape (keyword heads, missing / extra parts) x every relation clause
+# x every verb position that takes an address (incl. `via` inodes), in an active framer and a clone
+# ---------------------------------------------------------------------------------------------
+
+ADDR_PATHS = ["d", "actor", "frame", "framer", "me", "main", "actor.me", "actor.d", "frame.me", "frame.main",
+              "frame.d", "framer.me", "framer.main", "framer.d", "framer.me.frame", "framer.me.actor",
+              "framer.me.frame.me", "framer.me.frame.me.actor", "framer.me.frame.main.actor", "framer.me.actor.me",
+              "framer.me.frame.me.actor.me", "framer.me.frame.me.actor.me.d", "me.actor", "me.framer", "d.framer",
+              ".framer", ".framer.me.frame", "framer.", "d.", "actor.", "framer.me.frame.me.actor.me.actor"]
+ADDR_RELS = ["", " of me", " of root", " of framer", " of framer me", " of framer main", " of framer fa",
+             " of frame", " of frame me", " of frame main", " of frame a", " of frame me of framer me",
+             " of frame main of framer main", " of frame of framer", " of actor", " of actor me",
+             " of actor of frame", " of actor me of frame me", " of actor of frame main of framer main"]
+ADDR_TEMPLATES = ["put 5 into {A}", "go next if {A} >= 1", "do doer param at enter via {P}", "copy {A} into zz",
+                  "inc {A} by 1", "set {A} with 1", "copy zz into {A}", "go next if {A} is updated",
+                  "do doer param at enter for x in {A}", "do doer param at enter per x {P}", "put 1 into x in {A}",
+                  "aux mo as c2 via {P}"]
+ADDR_SKELETON = """house h1
+framer fa be active first a%(fvia)s
+  frame a%(avia)s
+    aux mo as c1
+%(fa)s
+  frame a2 in a
+framer mo be moot first m
+  frame m
+%(mo)s
+"""
+
+
+def incomplete_scripts(thorough=False):
+    out = []
+    templates = ADDR_TEMPLATES if thorough else ADDR_TEMPLATES[:3]
+    for t in templates:
+        for pth in ADDR_PATHS:
+            rels = ADDR_RELS if "{A}" in t else [""]
+            for r in rels:
+                line = "    " + t.format(A=pth + r, P=pth)
+                for k in ("fa", "mo"):
+                    if k == "mo" and t.startswith("aux mo"):
+                        continue          # a moot cloning itself: the known hang:clone-cycle family
+                    d = {"fa": "", "mo": "", "fvia": "", "avia": ""}
+                    d[k] = line
+                    out.append(ADDR_SKELETON % d)
+    for pth in ADDR_PATHS:                       # inodes of framers and frames
+        for where in ("fvia", "avia"):
+            d = {"fa": "    put 1 into d\n    put 1 into d of frame", "mo": "    put 1 into d", "fvia": "", "avia": ""}
+            d[where] = " via " + pth
+            out.append(ADDR_SKELETON % d)
+    return out
